@@ -57,10 +57,10 @@ ASSUMPTIONS = [
     "the protected list of a library does not change during a history; the tag formatter changes only where the history "
     "says so (`setfmt`) and only for registries that look it up on every call (settings callable / global setting); a name "
     "registered before the change keeps the start tag it was registered under until it is unregistered",
-    "DISABLED sub-domain (REREGISTER_UNDER_CHANGED_TAG = False): re-registering the SAME class under a name whose start tag "
-    "differs from the one it was registered under (formatter changed in between) - such calls are generated but not made, "
-    "counted under the label skipped_same_class_reregistration_under_changed_start_tag; the unmodified library leaves "
-    "the old tag in the library for good there (replays/C15/reregister_under_changed_tag.json)",
+    "re-registering the SAME class under a name whose start tag differs from the one it was registered under (formatter "
+    "changed in between) moves the name to the new start tag: the old tag is released like in unregister() "
+    "(REREGISTER_UNDER_CHANGED_TAG = True; the pinned tree left the old tag in the library for good, repaired in /repo, "
+    "witness regress/C15/d1_reregister_under_changed_tag.json)",
     "pre-existing library tags that are NOT protected never coincide with a start tag any formatter of the history can "
     "produce (the registry overwrites and later deletes such tags by documented design: protection is opt-in for private "
     "libraries)",
@@ -94,7 +94,7 @@ PATHS = {
 # Same-class re-registration of a name whose start tag differs from the one it was registered under (the formatter
 # changed in between). DISABLED: the unmodified library violates the property there (the old tag stays in the library
 # for good, see replays/C15/reregister_under_changed_tag.json); while False such calls are generated but not made.
-REREGISTER_UNDER_CHANGED_TAG = False
+REREGISTER_UNDER_CHANGED_TAG = True
 
 F_DEFAULT = {"kind": "default", "form": "path"}
 F_SHORT = {"kind": "shorthand", "form": "path"}
